@@ -134,8 +134,32 @@ pub fn gen(prop: &str, seed: u64, index: u64, tier: Tier) -> Case {
     }
     let a = analyze(&project);
     let mut crng = rng_for(seed, prop, pi, "config");
-    let has_link = project.entries.iter().any(|e| matches!(e, Entry::Symlink { .. }));
-    let (inputs, recursive) = gen::gen_inputs_l(&mut crng, &a, prop == "C03", has_link);
+    let has_link = project.entries.iter().any(|e| matches!(e, Entry::Symlink { path, .. } if path == "lnk"));
+    let (mut inputs, mut recursive) = gen::gen_inputs_l(&mut crng, &a, prop == "C03", has_link);
+    // directories that hold links leading out of them: sources reached only through a link
+    let link_dirs: Vec<String> = project
+        .entries
+        .iter()
+        .filter_map(|e| match e {
+            Entry::Symlink { path, .. } if path != "lnk" => Some(tree::parent_rel(path).to_string()),
+            _ => None,
+        })
+        .collect();
+    if !link_dirs.is_empty() && crng.chance(1, 3) {
+        inputs = vec![crng.pick(&link_dirs).clone()];
+        recursive = !crng.chance(1, 4);
+    }
+    // state kept from an earlier run in the same process must not matter: now and then the same
+    // inputs are first run on a variant of the tree in which some sources do not exist yet (a
+    // hand-written file lies where their output will be)
+    let mut warm: Vec<String> = vec![];
+    if !swept && a.n() > 1 && crng.chance(1, 6) {
+        for s in &a.sources {
+            if crng.chance(1, 3) {
+                warm.push(s.path.clone());
+            }
+        }
+    }
     let mode = if crng.chance(1, 4) {
         ModeS::Needed
     } else {
@@ -150,6 +174,9 @@ pub fn gen(prop: &str, seed: u64, index: u64, tier: Tier) -> Case {
     let mut params = std::collections::BTreeMap::new();
     params.insert("dirty_seed".to_string(), format!("{}", crng.next()));
     params.insert("swept".to_string(), format!("{swept}"));
+    if !warm.is_empty() {
+        params.insert("warmup_without".to_string(), serde_json::to_string(&warm).unwrap());
+    }
     Case {
         property: prop.to_string(),
         variant: String::new(),
@@ -206,6 +233,30 @@ pub fn run(case: &Case, ctx: &mut Ctx) -> CaseOutcome {
         out.poisoned = true;
         out.recorded = Some(case.clone());
         return out;
+    }
+    // warm-up: the same invocation on a tree in which some sources do not exist yet
+    if let Some(hide) = case.params.get("warmup_without").and_then(|s| serde_json::from_str::<Vec<String>>(s).ok()) {
+        let mut v = case.project.clone();
+        for h in &hide {
+            if let Some(i) = a.by_path.get(h) {
+                v.remove(h);
+                v.add_file(&a.sources[*i].out, B::s("written by hand before the source existed\n"));
+            }
+        }
+        tree::plant(&env.root, &v);
+        env.clear_run_vlog();
+        let mut ws = sched.clone();
+        ws.script = None;
+        ws.strict = false;
+        let warm = env.run(cfg, &ws, false);
+        ctx.stats.count("config.warm_up_run_on_earlier_tree");
+        if warm.poisoned {
+            // a hang in the warm-up is a hang of txtpp all the same; C03 reports it below through
+            // the main run's detectors only, so just replace the worker here
+            out.poisoned = true;
+            out.recorded = Some(case.clone());
+            return out;
+        }
     }
     // the tree the simulated run sees: sources + dirty generated paths
     tree::plant(&env.root, &case.project);
